@@ -108,6 +108,9 @@ func groupObligations(vcs []*VC) []*Obligation {
 			if vc.Kind == "cover" {
 				good = vc.Verdict == "sat"
 			}
+			if vc.Verdict == "skipped" {
+				continue
+			}
 			if good {
 				o.Solvers[vc.Solver]++
 				if len(vc.Confirmed) < minConf {
@@ -116,6 +119,18 @@ func groupObligations(vcs []*VC) []*Obligation {
 			} else {
 				o.Status = "failed"
 				o.Failed = append(o.Failed, vc)
+			}
+		}
+		if o.Kind == "cover" {
+			any := false
+			for _, vc := range o.VCs {
+				if vc.Verdict == "sat" {
+					any = true
+				}
+			}
+			if any {
+				o.Status = "discharged"
+				o.Failed = nil
 			}
 		}
 		o.Confirmed = minConf
@@ -181,6 +196,13 @@ func cmdFn(args []string) int {
 		fmt.Println("inlined:", res.Inlined)
 		fmt.Println("libs:", res.Libs)
 		fmt.Println("unknown calls:", res.Unknown)
+	}
+	if os.Getenv("SSOVC_KEEP") != "" {
+		for _, vc := range res.VCs {
+			if vc.File != "" {
+				fmt.Printf("KEEP %s %s trace=%s\n", vc.Ob, vc.File, vc.Trace)
+			}
+		}
 	}
 	if !*keep && bad == 0 {
 		os.RemoveAll(out)
